@@ -170,6 +170,21 @@ PROPS = {
         "assumptions": ["spec-valid = accepted by the specification decoder / libwebp; predictor modes 14 and 15 are outside the specification (the code leaves such blocks unpredicted, libwebp predicts opaque black): recorded, not claimed"],
         "partial": ["whole-stream refinement (decode_image_data, HuffmanTree two-level tables, chunked overlapping copies, transform drivers) is validated by the three-way correspondence, not proved"],
     },
+    "C02": {
+        "technique": "Lean 4 kernel/parameter theorems (loop-filter kernels = RFC 6386 section 15 reference code for all inputs; filter parameters = RFC rule for all headers; all constant tables and quantiser rules = reference decoder's) + whole-frame correspondence with libwebp on encoder-made and synthetic random-symbol key frames",
+        "level_text": "Theorems for ALL arguments: simple_segment / subblock_filter / macroblock_filter equal the RFC 6386 section 15 reference code (written on signed int8 values with sign-propagating shifts) on every 8-pixel segment and every (hev threshold, interior limit, edge limit), and always produce bytes; the per-macroblock filter level / interior limit / hev threshold equal the RFC reference decoder's computation for every frame level, sharpness, segment mode and value, reference and mode delta, they stay in 0..63 / 1..63 / 0..2 and both edge limits fit the u8 arithmetic of loop_filter; they equal libwebp's whenever the segment-adjusted level is inside 0..63 (outside, the RFC's clamp order - which the code follows - is normative); coefficient probability tables, update probabilities, quantiser tables, zigzag, bands, category probabilities and bases and the IDCT constants equal libwebp's (both regenerated from source on every run); `ac*155/100` floored at 8 and the 132 cap equal the reference `(ac*101581)>>16` and index clip 117 for all 128 indices. The whole-frame statement (parse, token decode, dequantise, prediction, IDCT/WHT, filter order, plane sizes) is NOT a theorem; it is decided by execution on every run: (a) idct4x4, iwht4x4, the three filter kernels and calculate_filter_parameters through hooks against the Lean model (the full level x sharpness x B_PRED grid, boundary deltas); (b) key frames encoded by libwebp over every size residue mod 16, qualities, filter strengths/sharpness/type, segments, partitions; (c) synthetic key frames whose partitions are random byte strings (every byte string is a valid boolean-coded partition), half of them with generator-chosen header fields at boundary values written by an RFC boolean encoder: random segment maps/modes/values, loop-filter deltas, levels incl. 0 and 63, quantiser indices and deltas, 1/2/4/8 partitions, probability updates, skip flags, all intra modes incl. every sub-block mode, arbitrary coefficient patterns; Y, U, V planes compared with libwebp's WebPDecodeYUV sample for sample, sizes w x h and ceil(w/2) x ceil(h/2).",
+        "level_note": "Trusted: Lean kernel + standard axioms for the kernel/parameter/table theorems; transcription of the RFC's reference code (Spec/LoopFilter.lean); libwebp as the executable RFC 6386 reference for whole frames. Frames whose dequantised coefficients exceed 16 bits (undefined in every reference decoder) and frames where RFC and libwebp differ in the level clamp order are decoded but not compared (counted in the histogram).",
+        "design_ref": "DESIGN.md section 4, C02",
+        "trusted_base": COMMON_TB + [
+            "modelled, not verified: transform.rs idct4x4, iwht4x4; loop_filter.rs simple_segment, subblock_filter, macroblock_filter and helpers; vp8.rs calculate_filter_parameters and the two edge-limit expressions of loop_filter; the constant tables of vp8.rs (regenerated). NOT modelled (correspondence with libwebp only): frame/macroblock header parsing, token decoding and dequantisation, intra prediction, the order in which loop_filter visits edges, plane cropping",
+            "specification: RFC.LF (Spec/LoopFilter.lean) - RFC 6386 section 15 reference code and sections 9.6/15.1 parameter rules; libwebp (WebPDecodeYUV, PrecomputeFilterStrengths, quant_dec.c, tree_dec.c tables) as executable reference",
+        ],
+        "assumptions": [
+            "valid stream = no partition is read past its end, colour-space and clamping bits 0, every dequantised coefficient fits 16 bits (the reference decoders store them in int16)",
+            "where RFC 6386's reference decoder and libwebp disagree (level clamped before vs after adding the deltas) the RFC is taken as normative",
+        ],
+        "partial": ["whole-frame bit-exactness is established by execution against libwebp, not proved: there is no Lean model of the VP8 parse / prediction / reconstruction pipeline; the theorems cover the arithmetic kernels, parameters and tables"],
+    },
     "C04": {
         "technique": "Lean 4 stage-inverse theorems on a complete byte-exact model of encode_frame + round trip through three decoders (Lean specification decoder, this crate, libwebp) on generated images",
         "level_text": "Theorems for all inputs: dimensions 0 / above 16384 are rejected and nothing else is; subtract-green and the encoder's predictor scheme are undone per channel by the specification's inverses; run tokenisation is lossless for every pixel sequence and never emits a run above 4096; for EVERY run length 1..4096 the (symbol, extra bits) written decode by the specification's LZ77 prefix rule to that length, with a legal length symbol. The model Enc.encodeFrame covers the whole function (expansion per colour type, transforms, run detection, frequency seeding, write_huffman_tree with both shortcuts and max_symbol, packed multi-code writes, the 64-bit BitWriter) and equals the real encode_frame byte for byte on every generated image; the bit-level round trip (codes from C14, serialised trees) is established by execution on every run: the Lean specification decoder applied to the model's bytes, this crate's decoder and libwebp applied to the real bytes all return the input, for 4 colour types x predictor on/off x sizes incl. 16384x1, 1x16384, 9000x2 x nine content families (runs of exactly 4095/4096/4097/8193, Fibonacci-skewed histograms forcing the 15-bit limit, single code length ...); plus WebPEncoder::encode with metadata.",
